@@ -95,8 +95,13 @@ def run_group(args):
                 s1.append(ing.cmd(f"REPLAY FOR {ing.ctx_text(c.ctx)}", ["rw", c.idx]))
     for p in plans:
         s1.append(ing.cmd(f"QUERY {p.name}", ["qm", p.name]))
-    s1 += [{"op": "wal_drain"}, {"op": "crash"}]
+    s1 += ing.DRAIN + [{"op": "crash"}]
     rc1, o1, e1 = ing.run_life(bindir, root, "l1", s1, epz=500)
+    accepted = sum(1 for o in o1 if o.get("op") == "cmd" and o.get("text", "").startswith("STORE") and ing.status_class(o) == "accept")
+    if ing.wal_lines(o1) is not None and ing.wal_lines(o1) < accepted:
+        # the asynchronous WAL writer had not caught up when the process was killed: machinery, not the property
+        ing.drop_root(root)
+        return gname, {}, False, (f"WAL held {ing.wal_lines(o1)} lines for {accepted} accepted STOREs at the crash", rc1)
     s2 = [ing.cmd(f"QUERY {p.name}", ["qw", p.name]) for p in plans]
     if flush:
         s2 += [ing.cmd("FLUSH", ["flush"]), {"op": "flush_wait"}]
@@ -110,7 +115,7 @@ def run_group(args):
         s2.append({"op": "shutdown"})
     else:
         # these events would never leave FLUSH (see C06-out-of-range-time-accepted): memory and WAL recovery only
-        s2 += [{"op": "wal_drain"}, {"op": "crash"}]
+        s2 += ing.DRAIN + [{"op": "crash"}]
     rc2, o2, e2 = ing.run_life(bindir, root, "l2", s2, epz=500)
     s3 = [ing.cmd(f"QUERY {p.name}", ["qr", p.name]) for p in plans]
     for c in [c for c in cases if not c.defined][:8]:
@@ -120,6 +125,7 @@ def run_group(args):
     t = {}
     for o in (o1, o2, o3):
         t.update(ing.by_tag(o))
+    ing.drop_root(root)
     ok = (bool(o1) and o1[-1].get("op") == "crash" and bool(o2) and o2[-1].get("op") in ("shutdown", "crash")
           and rc3 == 0 and bool(o3) and o3[-1].get("op") == "done")
     return gname, t, ok, (rc1, rc2, rc3, (e1 + e2 + e3)[-400:])
@@ -256,7 +262,7 @@ def run_def_history(args):
     pc = 0
     for i, st in enumerate(beh):
         if st["act"] in ("restart", "crash"):
-            cur += [{"op": "wal_drain"}, {"op": "crash"}] if st["act"] == "crash" else [{"op": "shutdown"}]
+            cur += ing.DRAIN + [{"op": "crash"}] if st["act"] == "crash" else [{"op": "shutdown"}]
             lives.append(cur)
             cur = []
         elif st["act"] == "define":
@@ -275,6 +281,7 @@ def run_def_history(args):
         if not obs or obs[-1].get("op") not in ("crash", "shutdown"):
             return n, None, f"lifetime {j} did not finish: rc={rc} {err[-300:]}"
         tags.update(ing.by_tag(obs))
+    ing.drop_root(root)
     out = []
     for i, st in enumerate(beh):
         o = dict(act=st["act"])
@@ -442,6 +449,7 @@ def groups_of(plans):
 
 def run(tier):
     chk = core.Check(PROP, "model_checking", tier)
+    ing.cap_violations(chk)
     bindir = core.build_harness(("vdrive",))
     rnd = random.Random(core.seed())
     q = tier == "quick"
